@@ -103,6 +103,14 @@ func TestC09_Notebook(t *testing.T) {
 			}
 			oldCmds = append(oldCmds, c)
 		}
+		if b := readOrNil(base.Notebook()); len(b) > 0 && rapid.IntRange(0, 3).Draw(t, "hand-edited") == 0 {
+			// the user has annotated the notebook by hand: comment lines and a document start marker
+			text := "# my own commands\n---\n" + strings.Replace(string(b), "\n- ", "\n# next one\n- ", 1) + "# end\n"
+			os.WriteFile(base.Notebook(), []byte(text), 0o644)
+			if db, err := database.LoadDatabase(base.Notebook()); err != nil || len(db.Commands) != nOld {
+				t.Fatalf("harness: annotated notebook no longer holds its %d entries: %v", nOld, err)
+			}
+		}
 		fileMode := c09DrawModes(t, base)
 		symlinked := rapid.IntRange(0, 4).Draw(t, "symlinked") == 0
 		if symlinked {
